@@ -221,6 +221,12 @@ def _set_integer_constraints_from_physical_type(expression, physical_type, type_
 
 def _compute_constraints_of_parameter(parameter):
     if parameter.type.which_type == "integer":
+        if parameter.physical_type_alias.atomic_type.reference.canonical_name.module_file:
+            # As for fields: there is no scheme for the bounds of user-defined
+            # `external` integer types yet; nothing can be said about their values.
+            parameter.type.integer.minimum_value = "-infinity"
+            parameter.type.integer.maximum_value = "infinity"
+            return
         type_size = ir_util.constant_value(parameter.physical_type_alias.size_in_bits)
         _set_integer_constraints_from_physical_type(
             parameter, parameter.physical_type_alias, type_size
